@@ -14,3 +14,16 @@ func C11NilChan(weighted bool) int {
 	}
 	return n
 }
+
+type c11rec struct{ Err error }
+
+// C11Swallow logs the error of a record and leaves with the (nil) named result (ERR-SWALLOW control).
+func C11Swallow(recs []c11rec) (err error) {
+	for _, r := range recs {
+		if r.Err != nil {
+			println(r.Err.Error())
+			return
+		}
+	}
+	return
+}
